@@ -152,6 +152,29 @@ fn ser<T: CanonicalSerialize>(x: &T, out: &mut Vec<u8>) {
     x.serialize_uncompressed(out).unwrap();
 }
 
+thread_local! {
+    /// (folded round commitment Q, h' = rc * h, h(z)) of the last `ipa` evaluation on this thread
+    static IPA_PARTS: std::cell::RefCell<Option<(<GEd as AffineRepr>::Group, <GEd as AffineRepr>::Group, FrEd)>> = std::cell::RefCell::new(None);
+}
+
+/// The final commitment key K that makes the SUCCINCT part of the IPA relation hold for the statement as
+/// shown (possibly with a false value) and the proof's (L, R, c):  c K + c h(z) h' = Q.  Such a K is a
+/// commitment to the check polynomial only for an honest statement -- the final-key check must catch it.
+pub fn ipa_forged_final_key(
+    vk: &VK<Ipa>,
+    comms: &[&LabeledCommitment<Comm<Ipa>>],
+    z: &FrEd,
+    values: &[FrEd],
+    proof: &Proof<Ipa>,
+    sp: &mut LogSponge<FrEd>,
+) -> Option<GEd> {
+    IPA_PARTS.with(|p| *p.borrow_mut() = None);
+    let _ = ipa(vk, comms, z, values, proof, sp);
+    let (q, hp, hz) = IPA_PARTS.with(|p| p.borrow_mut().take())?;
+    let ci = proof.c.inverse()?;
+    Some((q * ci - hp * hz).into_affine())
+}
+
 pub fn ipa(
     vk: &VK<Ipa>,
     comms: &[&LabeledCommitment<Comm<Ipa>>],
@@ -227,6 +250,7 @@ pub fn ipa(
         coeffs = next;
     }
     let hz = coeffs.iter().rev().fold(FrEd::zero(), |a, cj| a * z + cj);
+    IPA_PARTS.with(|p| *p.borrow_mut() = Some((acc, hp, hz)));
     if acc != proof.final_comm_key.into_group() * proof.c + hp * (proof.c * hz) {
         return Some(false);
     }
